@@ -29,7 +29,7 @@ const churnJunk = "\xde\xad\xde\xad\xde\xad\xde\xad\xde\xad\xde\xad"
 func churn() {
 	var keep []interface{}
 	js := churnJunk
-	for i := 0; i < 3000; i++ {
+	for i := 0; i < 1200; i++ {
 		// pointer-carrying objects of the small size classes (16, 24, 32, 48, 64 bytes) and pointer-free ones
 		k := &SKey{K: js[:8+i%4]}
 		v := &SVal{A: -0x21522153, S: js}
